@@ -2,7 +2,8 @@
    Only statements, each closed by `exact`, with Print Assumptions beneath. *)
 From Coq Require Import List Ascii String NArith Arith Bool.
 Import ListNotations.
-From SP Require Import Skel Gen Expected Sha1 PathLex TempNames TempDirModel.
+From Coq Require Import Permutation.
+From SP Require Import Skel Gen Expected Sha1 PathLex TempNames TempDirModel TempStable.
 
 (* T1: the constants the model has built in are those of the current source *)
 Theorem C14_code_conforms :
@@ -22,6 +23,31 @@ Theorem C14_reduction : forall i j : ident,
   sha1 (to_bytes (hashed (iname i) (preimage i))) = sha1 (to_bytes (hashed (iname j) (preimage j))).
 Proof. intros i j. exact (TempNames.C14_reduction (iname i) (preimage i) (iname j) (preimage j)). Qed.
 
+(* stable: the same task identity gets the same directory whatever order Go enumerates its maps in (keys are sorted);
+   the name is a function of the identity alone -- no clock, no random source, no map order *)
+Theorem C14_stable : forall i j : ident,
+  iname i = iname j ->
+  NoDup (map fst (iins i)) -> Permutation (iins i) (iins j) ->
+  NoDup (map fst (isubs i)) -> Permutation (isubs i) (isubs j) ->
+  NoDup (map fst (iparams i)) -> Permutation (iparams i) (iparams j) ->
+  NoDup (map fst (itags i)) -> Permutation (itags i) (itags j) ->
+  task_tempdir i = task_tempdir j.
+Proof. exact TempStable.tempdir_stable. Qed.
+
+(* distinct in each component: two tasks of one process that differ in the value of their parameter, or in their input
+   file (a file in the working directory), have different hashed pre-images -- so by C14_reduction equal directories would
+   exhibit a SHA-1 collision *)
+Theorem C14_preimage_injective_param : forall (name : str) (ins : list (str * str)) (k v1 v2 : str),
+  preimage {| iname := name; iins := ins; isubs := []; iparams := [(k, v1)]; itags := [] |} =
+  preimage {| iname := name; iins := ins; isubs := []; iparams := [(k, v2)]; itags := [] |} -> v1 = v2.
+Proof. exact TempStable.preimage_injective_single_param. Qed.
+
+Theorem C14_preimage_injective_input : forall (name port p1 p2 : str),
+  single_segment p1 -> single_segment p2 ->
+  preimage {| iname := name; iins := [(port, p1)]; isubs := []; iparams := []; itags := [] |} =
+  preimage {| iname := name; iins := [(port, p2)]; isubs := []; iparams := []; itags := [] |} -> p1 = p2.
+Proof. exact TempStable.preimage_injective_single_input. Qed.
+
 (* the pre-image is not injective: input "a/b" and input "ab" of the same process share a directory (finding D7) *)
 Theorem C14_preimage_refuted : iins idA <> iins idB /\ task_tempdir idA = task_tempdir idB.
 Proof. exact TempDirModel.C14_preimage_refuted. Qed.
@@ -29,4 +55,7 @@ Proof. exact TempDirModel.C14_preimage_refuted. Qed.
 Print Assumptions C14_code_conforms.
 Print Assumptions C14_valid_segment.
 Print Assumptions C14_reduction.
+Print Assumptions C14_stable.
+Print Assumptions C14_preimage_injective_param.
+Print Assumptions C14_preimage_injective_input.
 Print Assumptions C14_preimage_refuted.
